@@ -304,6 +304,16 @@ def run(tier, replay=None):
     if replay:
         # --replay <trace.ndjson | behaviours.ndjson>: re-run one artefact verbosely
         first = open(replay).readline()
+        try:
+            whole = json.load(open(replay))
+        except ValueError:
+            whole = None
+        if isinstance(whole, dict) and "input" in whole:
+            # a saved S->I violation: replay the behaviour / transition it came from
+            replay = os.path.join(wd, "replay_input.ndjson")
+            with open(replay, "w") as f:
+                f.write(json.dumps(whole["input"]) + "\n")
+            first = ""
         if '"ev"' in first:
             t = vlib.tlc_trace("Trace_Sessions", "Trace_Sessions.cfg", PID, replay, timeout=900)
             print(t["out"][-3000:])
